@@ -276,6 +276,8 @@ impl Store {
                     if let Some(TTL::Time(ttl)) = frame.ttl.as_ref() {
                         if is_expired(&frame.id, ttl) {
                             let _ = gc_tx.send(GCTask::Remove(frame.id));
+                            #[cfg(feature = "verif-hooks")]
+                            crate::verif::sync_point("gc.enqueue", verif_tag, Some(&frame));
                             continue;
                         }
                     }
@@ -409,6 +411,8 @@ impl Store {
                 if let Some(TTL::Time(ttl)) = frame.ttl.as_ref() {
                     if is_expired(&frame.id, ttl) {
                         let _ = self.gc_tx.send(GCTask::Remove(frame.id));
+                        #[cfg(feature = "verif-hooks")]
+                        crate::verif::sync_point("gc.enqueue", 0, Some(frame));
                         return false;
                     }
                 }
@@ -548,6 +552,8 @@ impl Store {
                     topic: frame.topic.clone(),
                     keep: n,
                 });
+                #[cfg(feature = "verif-hooks")]
+                crate::verif::sync_point("gc.enqueue", 0, Some(&frame));
             }
         }
 
